@@ -291,9 +291,8 @@ impl Expansion {
     }
 }
 
-struct Expander<'a> {
+struct Expander {
     lib: BTreeMap<String, (i16, Vec<Step>)>,
-    _case: std::marker::PhantomData<&'a ()>,
     next_id: u32,
     out: Expansion,
     budget: usize,
@@ -303,8 +302,8 @@ fn lit_val(text: &str, origin: usize) -> EnvVal {
     EnvVal { text: Some(text.to_string()), flag: false, id: 0, feats: vec![], deps: vec![], hops: 0, origin, ctx_default: false, murky: false }
 }
 
-impl<'a> Expander<'a> {
-    fn new(lib: &'a [Macro]) -> Expander<'a> {
+impl Expander {
+    fn new(lib: &[Macro]) -> Expander {
         let mut map: BTreeMap<String, (i16, Vec<Step>)> = BTreeMap::new();
         for (name, key, v) in BUILTIN_MACROS {
             let body = vec![Step { op: "adapt".into(), args: vec![Arg { key: key.into(), val: Val::Lit(v.into()) }], inv: InvPos::No }];
@@ -314,7 +313,7 @@ impl<'a> Expander<'a> {
             // later registrations replace earlier ones, as in the contexts
             map.insert(m.name.clone(), (i as i16, m.body.clone()));
         }
-        Expander { lib: map, _case: std::marker::PhantomData, next_id: 1, out: Expansion::default(), budget: 20_000 }
+        Expander { lib: map, next_id: 1, out: Expansion::default(), budget: 20_000 }
     }
 
     fn initial_env() -> Env {
